@@ -217,21 +217,25 @@ PAIR = {}
 
 
 def check_deleg(run, S, name, spec, kw):
-    PAIR[spec[1]] = name
-    if len(PAIR) < 2:
+    # code and reference roots are paired by their instantiation suffix (generic, __f32, __f64_m, ..)
+    suffix = name.split('__b3', 1)[-1]
+    PAIRS_ = PAIR.setdefault(suffix, {})
+    PAIRS_[spec[1]] = name
+    if len(PAIRS_) < 2:
         return
-    rc, rr = run.use_root(S, PAIR['code']), run.use_root(S, PAIR['ref'])
+    PAIR_ = PAIRS_
+    rc, rr = run.use_root(S, PAIR_['code']), run.use_root(S, PAIR_['ref'])
     if rc is None or rr is None:
         run.ob('%s:%s:present' % (PROP, name), False, rule='root-present', expected='root', found='missing')
         return
     cv = Conv(S)
     ok, msg = trees_equal(S, cv, rc['out'], rr['out'])
     if ok:
-        run.ob('%s:%s:delegation' % (PROP, PAIR['code']), True, rule='K6 delegation equality', expected='Basis3::between_vectors(a,b) == Basis3::from(Quaternion::between_vectors(a,b)) leaf by leaf',
+        run.ob('%s:%s:delegation' % (PROP, PAIR_['code']), True, rule='K6 delegation equality', expected='Basis3::between_vectors(a,b) == Basis3::from(Quaternion::between_vectors(a,b)) leaf by leaf',
                found='equal', where=rc.get('span'))
     else:
         # not the same tree (the code special-cases something): equal on every pair of compatible paths
-        paths_agree(run, S, '%s:%s:delegation' % (PROP, PAIR['code']), rc['out'], rr['out'], 'K6 delegation equality, path by path: Basis3::between_vectors(a,b) == Basis3::from(Quaternion::between_vectors(a,b))', where=rc.get('span'))
+        paths_agree(run, S, '%s:%s:delegation' % (PROP, PAIR_['code']), rc['out'], rr['out'], 'K6 delegation equality, path by path: Basis3::between_vectors(a,b) == Basis3::from(Quaternion::between_vectors(a,b))', where=rc.get('span'))
 
 
 def check_b2(run, S, name, spec, kw):
